@@ -94,9 +94,10 @@ int main(int argc, char** argv) {
         static constexpr regex_term<up_pat> upper("an_upper_case_word_with_a_descriptive_name_that_is_rather_long_0123456789");
         static constexpr regex_term<dg_pat> digits(0);
         static constexpr nterm<int> root("root");
-        static const parser q(root, terms(';', k40, upper, digits, "%s'q%d"), nterms(root), rules(root(';') >= val(1)));
+        static constexpr char us_pat[] = "_+"; static constexpr regex_term<us_pat> unnamed_by_choice("");            // an empty display name is a display name
+        static const parser q(root, terms(';', k40, upper, digits, "%s'q%d", unnamed_by_choice), nterms(root), rules(root(';') >= val(1)));
         struct LT { const char* lexeme; std::string name; };
-        const LT lts[] = {{k40, k40}, {"AB", "an_upper_case_word_with_a_descriptive_name_that_is_rather_long_0123456789"}, {"12345678x", std::string("r_") + dg_pat}, {"%s'q%d", "%s'q%d"}};
+        const LT lts[] = {{k40, k40}, {"AB", "an_upper_case_word_with_a_descriptive_name_that_is_rather_long_0123456789"}, {"12345678x", std::string("r_") + dg_pat}, {"%s'q%d", "%s'q%d"}, {"__", ""}};
         for (const LT& lt : lts) for (int form = 0; form < 3; ++form) {
             std::string in = form == 0 ? std::string(lt.lexeme) : form == 1 ? ";" + std::string(lt.lexeme) : " \n  " + std::string(lt.lexeme);
             std::string want = (form == 0 ? "[1:1]" : form == 1 ? "[1:2]" : "[2:3]") + std::string(" PARSE: Syntax error: Unexpected '") + lt.name + "'\n";
